@@ -35,12 +35,24 @@ class ModelCloud:
         self.tokenlists: dict = {}               # udpid -> explicit token list (else a single matching entry)
         self.shuffle = 0
         self._n = 0
+        self.latency = 0.05          # every round trip takes (virtual) time: other tasks run meanwhile
+        self.timeout_after = 10.0    # a request that times out does so after the client's 10 s budget
 
     # -- client factory for msmart's get_async_client parameter
     def client_factory(self):
         def factory(*a, **kw):
-            return httpx.AsyncClient(transport=httpx.MockTransport(self.handle))
+            return httpx.AsyncClient(transport=httpx.MockTransport(self.handle_async))
         return factory
+
+    async def handle_async(self, request: httpx.Request) -> httpx.Response:
+        import asyncio
+        url = urlsplit(str(request.url))
+        script = self.fault_script.get(url.path)
+        if script and script[0] == "timeout":
+            await asyncio.sleep(self.timeout_after)
+        elif self.latency:
+            await asyncio.sleep(self.latency)
+        return self.handle(request)
 
     def _json(self, result: Optional[dict], code: int = 0, msg: str = "ok") -> httpx.Response:
         body = {"errorCode": str(code), "msg": msg}
